@@ -16,7 +16,7 @@ func init() {
 	register(&Prop{
 		ID:    "C08",
 		Level: "exploration",
-		Rule: "case = history of <=40 commands issued one at a time by 1..4 sessions of one user over 2 shared mailboxes of the real in-memory backend: APPEND, SELECT/EXAMINE, STORE (+/-\\Deleted and others), EXPUNGE, UID EXPUNGE, COPY, MOVE, FETCH and SEARCH in UID and non-UID forms with static numbers, ranges and '*', NOOP, IDLE, CLOSE/UNSELECT; which session acts next comes from the plan, so views get arbitrarily stale; in 1 run of 3 some adjacent commands of different sessions are issued concurrently and the schedule interleaves them inside the server; optionally a bystander disconnects. " +
+		Rule: "case = history of <=40 commands issued one at a time by 1..4 sessions of one user over 2 shared mailboxes of the real in-memory backend: APPEND, SELECT/EXAMINE, STORE (+/-\\Deleted and others), EXPUNGE, UID EXPUNGE, COPY, MOVE, FETCH and SEARCH in UID and non-UID forms with static numbers, ranges and '*', NOOP, IDLE, CLOSE/UNSELECT; which session acts next comes from the plan, so views get arbitrarily stale; in 1 run of 3 some adjacent commands of different sessions are issued concurrently and the schedule interleaves them inside the server; command names in upper, lower or mixed case; optionally a bystander disconnects. " +
 			"Oracle: a per-connection wire observer built on the independent scanner (announced count, sequence-number -> UID list reconstructed from EXISTS / EXPUNGE / FETCH UID). Non-trivial: at least two sessions selected the same mailbox and one of them changed it. Distinct: distinct event-log hashes.",
 		Components:   "real: imapserver.Conn, trackers, imapmemserver (woven); stub: scripted raw peers with wire observers, network, clock, scheduler",
 		Assumptions:  []string{"commands are issued one at a time across sessions (as the property states); only idling sessions receive data asynchronously"},
